@@ -485,6 +485,35 @@ func genEp(g *core.Gen) {
 	for i := 0; i < g.N(10, 150); i++ {
 		emit("ep-valid", mk(-1, -1, r.Intn(8), g.N(3000, 100000)))
 	}
+	// every option a caller can pass: responder admission (rejecting the first / second CPU phase,
+	// admitting, admitting with a nil release), an installed logger, a different network argument
+	// in the second call (configuration changes between the two handshake calls)
+	withFlags := func(line, flags string) string {
+		f := strings.SplitN(line, " ", 4)
+		return f[0] + " " + f[1] + " " + f[2] + "+" + flags + " " + f[3]
+	}
+	for i := 0; i < g.N(3, 40); i++ {
+		s := mk(-1, -1, r.Intn(3), 0)
+		la := s.a.line(s.wb, append(sendActs(s.pa), recvActs(s.pb, 0)...))
+		lb := s.b.line(s.wa, append(sendActs(s.pb), recvActs(s.pa, 0)...))
+		for _, a := range []string{"A1", "A2", "A3", "A4"} {
+			kase(g, "ep-admission-responder", true, withFlags(lb, a))
+		}
+		kase(g, "ep-admission-initiator", true, withFlags(la, "A"+fmt.Sprint(1+r.Intn(4))))
+		kase(g, "ep-logger", true, withFlags(la, "L"))
+		kase(g, "ep-logger", true, withFlags(lb, "L,A4"))
+		other := pickMagic(r)
+		kase(g, "ep-net-changes-between-calls", true, withFlags(la, "N"+other))
+		kase(g, "ep-net-changes-between-calls", true, withFlags(lb, "N"+other))
+		// admission on the paths that stop early
+		c := randEp(r, "r", s.a.magic)
+		v1 := append(unhx(fmt.Sprintf("%08s", c.magic)), []byte("version\x00\x00\x00\x00\x00")...)
+		v1[0], v1[1], v1[2], v1[3] = v1[3], v1[2], v1[1], v1[0]
+		kase(g, "ep-admission-v1", true, withFlags(c.line(append(v1, r.Bytes(30)...), nil), "A"+fmt.Sprint(1+r.Intn(4))))
+		kase(g, "ep-admission-short", true, withFlags(c.line(s.wa[:20+r.Intn(40)], nil), "A"+fmt.Sprint(2+r.Intn(3))))
+		c.gLen = 4096
+		kase(g, "ep-admission-garbage-too-large", true, withFlags(c.line(s.wa, nil), "A4"))
+	}
 	// long sessions: >= 700 packets each way (3 rekeys)
 	for i := 0; i < g.N(1, 8); i++ {
 		emit("ep-long", mk(-1, -1, 700+r.Intn(30), 2000))
